@@ -7,7 +7,7 @@
    real builders and [slice] to Array::slice / ArrayData::slice on every generated layout. *)
 From Coq Require Import List Arith NArith ZArith Bool.
 From AV Require Import Base.Bytes Model.C09_Layout Model.C02_Logical Model.C02_Equal Model.C02_Rows.
-From AV Require Import Proofs.C02_Slice Proofs.C02_Readback Proofs.C02_EqualNulls Proofs.C02_EqualPrim Proofs.C02_EqualBool Proofs.C02_EqualBin Proofs.C02_EqualList Proofs.C02_EqualListPrim Proofs.C02_EqualDict Proofs.C02_Reflect Proofs.C02_Rows.
+From AV Require Import Proofs.C02_Slice Proofs.C02_Readback Proofs.C02_EqualNulls Proofs.C02_EqualPrim Proofs.C02_EqualBool Proofs.C02_EqualBin Proofs.C02_EqualList Proofs.C02_EqualListPrim Proofs.C02_EqualDict Proofs.C02_EqualStruct Proofs.C02_Reflect Proofs.C02_Rows.
 Import ListNotations.
 
 (* ---- slicing is a window on the logical content: EVERY modelled type (Null, Boolean, fixed width,
@@ -146,6 +146,21 @@ Theorem dictionary_equal_range : forall (kw : nat) (signed : bool) (v : dty) (al
          logical_at ka (Z.to_nat (dkey kw signed a (ls + i))) = logical_at kb (Z.to_nat (dkey kw signed b (rs + i)))).
 Proof. exact dictionary_equal_iff. Qed.
 Print Assumptions dictionary_equal_range.
+
+(* Struct (ArrayData offset 0, as StructArray::to_data produces), compositional: whole-range path and
+   per-slot path of struct_equal hold exactly when every valid slot has the same field values *)
+Theorem struct_equal_range : forall (fs : list (bool * dty)) (alen : nat) (anulls : option nullbuf)
+    (abufs : list (list N)) (akids : list parr) (b : parr),
+  let a := PArr (TStruct fs) alen 0 anulls abufs akids in
+  p_off b = 0 -> Forall2 range_ok akids (p_kids b) ->
+  forall ls rs n,
+  Forall (fun k => ls + n <= p_len k) akids -> Forall (fun k => rs + n <= p_len k) (p_kids b) ->
+  (forall i, i < n -> slot_valid a (ls + i) = slot_valid b (rs + i)) ->
+  (equal_values a b ls rs n = true
+   <-> forall i, i < n -> slot_valid a (ls + i) = true ->
+         map (fun k => logical_at k (ls + i)) akids = map (fun k => logical_at k (rs + i)) (p_kids b)).
+Proof. exact struct_equal_iff. Qed.
+Print Assumptions struct_equal_range.
 
 (* equal_nulls / contains_nulls through the BitSliceIterator specification *)
 Theorem equal_nulls_spec : forall a b ls rs n,
